@@ -17,20 +17,66 @@ def methods(src):
     return out
 
 def loops(body):
-    """loop shapes in source order: ('vec', field) | ('map', field) | ('other', None)"""
+    """loops in source order with their nesting: list of dicts
+       {kind: 'vec'|'map'|'other', target: expr|None, idx: 'i0', bound: 'e0', depth: n, parents: [ordinals]}"""
     res = []
     lines = body.split('\n')
+    stack = []  # (ordinal, indent)
     for i, l in enumerate(lines):
+        ind = len(l) - len(l.lstrip('\t'))
+        while stack and ind <= stack[-1][1] and l.strip():
+            # a line at or left of the loop's own indentation ends it (the closing brace is at that indentation)
+            if l.strip() == '}' and ind == stack[-1][1]:
+                stack.pop()
+                break
+            if ind < stack[-1][1]:
+                stack.pop()
+            else:
+                break
+        # the loop head names its own bound (a per-loop copy `eN` of the header length, or `length` itself)
+        m = re.match(r'^\s*for (\w+), (\w+) := int32\(0\), length; ', l)
+        m2 = re.match(r'^\s*for (\w+) := int32\(0\); \1 < (\w+); ', l)
         if re.search(r'^\s*for\b', l):
-            shape = ('other', None)
-            # look back for the make that prepares the container
-            for j in range(i - 1, max(i - 6, -1), -1):
-                mm = re.search(r'(st\.\w+) = make\((\[\]|map)', lines[j])
-                if mm:
-                    shape = ('vec' if mm.group(2) == '[]' else 'map', mm.group(1))
-                    break
-            res.append(shape)
+            info = {"kind": "other", "target": None, "idx": None, "bound": None, "parents": [o for o, _ in stack]}
+            if m or m2:
+                info["idx"], info["bound"] = (m or m2).group(1), (m or m2).group(2)
+                for j in range(i - 1, max(i - 8, -1), -1):
+                    mm = re.search(r'^\s*(\S+) = make\((\[\]|map)', lines[j])
+                    if mm:
+                        info["kind"] = 'vec' if mm.group(2) == '[]' else 'map'
+                        info["target"] = mm.group(1)
+                        break
+            res.append(info)
+            stack.append((len(res) - 1, ind))
     return res
+
+def loop_clauses(body):
+    """invariants / modifies of the reader loops, from their shape and nesting"""
+    ls = loops(body)
+    out = []
+    def own(info):
+        c = []
+        if info["kind"] == "vec":
+            c.append("len(%s) == %s" % (info["target"], info["bound"]))
+        elif info["kind"] == "map":
+            c.append("%s != nil" % info["target"])
+        return c
+    for k, info in enumerate(ls):
+        inv = ["validR(readBuf)", "readBuf.buf.i >= p0", "st != nil"]
+        for pk in info["parents"]:
+            pi = ls[pk]
+            inv += own(pi)
+            if pi["idx"]:
+                inv.append("0 <= %s && %s < %s" % (pi["idx"], pi["idx"], pi["bound"]))
+        inv += own(info)
+        # a vector loop writes the elements of its target and the cursor, besides what the verifier finds by itself
+        # (the shared `length` cell, objects allocated by the iteration)
+        if info["kind"] == "vec":
+            out.append("//@   loop %d modifies elems(%s), readBuf.buf.i, readBuf.depth" % (k, info["target"]))
+        elif info["kind"] == "map" and info["parents"]:
+            out.append("//@   loop %d modifies mapcells(%s), readBuf.buf.i, readBuf.depth" % (k, info["target"]))
+        out.append("//@   loop %d invariant [C05] %s" % (k, " && ".join(inv)))
+    return [o for o in out if o]
 
 # ------------------------------------------------------------------ schema (C03): the IDL files are the oracle
 IDL = {"authf": "AuthF.tars", "configf": "ConfigF.tars", "endpointf": "EndpointF.tars", "logf": "LogF.tars",
@@ -91,7 +137,7 @@ def reader_schema(pkg, ty, mem, fields, whole=True):
 
 def idl_structs(pkg):
     """{struct: [(tag, required, type, name, default)]} parsed from the .tars file (comments stripped)"""
-    text = open("%s/tars/protocol/res/%s" % (REPO, IDL[pkg])).read()
+    text = open(IDLFILE.get(pkg, "%s/tars/protocol/res/%s" % (REPO, IDL.get(pkg, "")))).read()
     text = re.sub(r'/\*.*?\*/', '', text, flags=re.S)
     text = re.sub(r'//[^\n]*', '', text)
     enums = set(re.findall(r'\benum\s+(\w+)', text))
@@ -165,6 +211,18 @@ def schema_contract(pkg, ty, mem, fields):
         o.append("//@   ensures [C03] err == nil && buf.buf.bytes == pre")
     else:
         return []  # structs with container members: not derived (requestf's two packets are written by hand)
+    if sum(1 for c, _ in steps if c is not None) > 3:
+        # many optional members: cut the 2^n paths with the intermediate fact in front of each member's write
+        # (a required member's write is call k of the method; an optional member's test is conditional branch
+        # number sum(1 for a required, 2 for an optional member in front of it): test, then the error check)
+        nif = 0
+        for k, (cond, _) in enumerate(steps):
+            if k > 0:
+                if cond is None:
+                    o.append("//@   site Buffer).Write#%d assert [C03] buf.buf.bytes == e%d" % (k, k))
+                else:
+                    o.append("//@   site if#%d assert [C03] buf.buf.bytes == e%d" % (nif, k))
+            nif += 1 if cond is None else 2
     o += ["//@   safety [C03]", "//",
           "//@ func (*%s).WriteBlock" % ty,
           "//@   requires " + " && ".join(reqs),
@@ -182,8 +240,10 @@ def schema_contract(pkg, ty, mem, fields):
           "//@   safety [C03]", "//"]
     return o
 
+GOFILE, IDLFILE = {}, {}
+
 def gen(pkg):
-    fn = "%s/tars/protocol/res/%s/%sF.go" % (REPO, pkg, pkg[:-1].capitalize())
+    fn = GOFILE.get(pkg, "%s/tars/protocol/res/%s/%sF.go" % (REPO, pkg, pkg[:-1].capitalize()))
     src = open(fn).read()
     o = ["//go:build verif", "",
          "// Contracts for the generated bindings of this package, derived mechanically by /verif/tools/gencontracts.py;",
@@ -226,14 +286,11 @@ def gen(pkg):
                   "//@   allocates",
                   "//@   ensures [C05] readBuf.buf.i >= p0",
                   "//@   ensures [C05] validR(readBuf)"] + lets + ens
-            for k, (shape, fld) in enumerate(loops(body)):
-                inv = "validR(readBuf) && readBuf.buf.i >= p0 && st != nil"
-                if shape == 'vec':
-                    inv += " && len(%s) == length" % fld
-                    o.append("//@   loop %d modifies elems(%s), readBuf.buf.i, readBuf.depth" % (k, fld))
-                elif shape == 'map':
-                    inv += " && %s != nil" % fld
-                o.append("//@   loop %d invariant [C05] %s" % (k, inv))
+            lc = loop_clauses(body)
+            if len(loops(body)) > 2 and "//@   perreturn" not in lets:
+                # many loops, many returns: one exit obligation per return keeps each query small
+                o += ["//@   perreturn"]
+            o += lc
             o += ["//@   safety [C05]", "//"]
         elif name == "ReadBlock":
             o += ["//@ func (*%s).ReadBlock" % ty,
@@ -250,7 +307,17 @@ def gen(pkg):
 def main():
     check = "--check" in sys.argv
     bad = 0
-    for pkg in PKGS:
+    pkgs = PKGS
+    if "--pkg" in sys.argv:
+        # one extra package outside the fixed list: --pkg <name> --go <generated file> --idl <tars file>
+        a = sys.argv
+        pkg = a[a.index("--pkg") + 1]
+        GOFILE[pkg] = a[a.index("--go") + 1]
+        IDLFILE[pkg] = a[a.index("--idl") + 1]
+        text = gen(pkg)
+        open(os.path.join(os.path.dirname(GOFILE[pkg]), "contracts_verif.go"), "w").write(text)
+        return
+    for pkg in pkgs:
         text = gen(pkg)
         path = "%s/tars/protocol/res/%s/contracts_verif.go" % (REPO, pkg)
         if check:
